@@ -11,60 +11,67 @@ def build_driver():
     return rc == 0, out
 
 
-def model_f2h_blocks():
-    rc, out = lib.sh([DRV, "f2h_blocks", "0", "65536"], timeout=1800)
+def model_f2h_blocks(canon=False):
+    """65,536 block hashes of the model's f2h over all 2^32 float patterns
+    (canon: NaN results mapped to sign|0x7e00 before hashing)."""
+    rc, out = lib.sh([DRV, "f2h_blocks", "0", "65536"] + (["1"] if canon else []), timeout=1800)
     return out.split()
 
 
-def model_h2f_all():
+def model_h2f_all(canon=False):
     rc, out = lib.sh([DRV, "h2f_all"], timeout=600)
-    return [int(x, 16) for x in out.split()]
+    r = [int(x, 16) for x in out.split()]
+    return [halfspec.canon32(x) for x in r] if canon else r
 
 
 def first_f2h_diff(binary, api, canon, block):
     """Within a mismatching block find the first float whose conversion differs
-    from the model; returns (float_bits, impl, model)."""
+    from the model; returns (float_bits, impl, model) or None."""
     lo, hi = block << 16, (block + 1) << 16
-    rc, a = lib.sh([binary, "f2h_range", str(lo), str(hi), api, str(canon)], timeout=600)
-    rc, b = lib.sh([DRV, "f2h_range", str(lo), str(hi)], timeout=600)
+    c = "1" if canon else "0"
+    rc, a = lib.sh([binary, "f2h_range", str(lo), str(hi), api, c], timeout=600)
+    rc, b = lib.sh([DRV, "f2h_range", str(lo), str(hi), c], timeout=600)
     a = [int(x, 16) for x in a.split()]
     b = [int(x, 16) for x in b.split()]
-    if canon:
-        b = [halfspec.canon16(x) for x in b]
     for i, (x, y) in enumerate(zip(a, b)):
         if x != y:
             return lo + i, x, y
     return None
 
 
-def compare_config(chk, name, binary, prop_key_prefix, apis=("c", "cxx"), canon=0, model_blocks=None, model_h2f=None):
+def compare_config(chk, name, binary, prop_key_prefix, apis=("c", "cxx"), canon=False, model_blocks=None, model_h2f=None):
     """Exhaustive 2^32 + 2^16 comparison of one built configuration with the model.
-    Records obligations and failures on chk; returns number of mismatching blocks."""
-    model_blocks = model_blocks or model_f2h_blocks()
-    model_h2f = model_h2f or model_h2f_all()
+
+    canon=True compares after mapping NaN results to sign|0x7e00 (half) /
+    sign|0x7fc00000 (float) on BOTH sides (the model hashes come from
+    `drv_half f2h_blocks 0 65536 1`): NaN-ness and sign must agree, the payload
+    may differ.  `model_blocks` / `model_h2f` may be passed in (already in the
+    requested canon form) so that several configurations share one model pass.
+    Records obligations and failures on chk; returns the number of mismatches."""
+    canon = bool(canon)
+    if model_blocks is None:
+        model_blocks = model_f2h_blocks(canon)
+    if model_h2f is None:
+        model_h2f = model_h2f_all(canon)
+    c = "1" if canon else "0"
+    tag = " (NaN payload canonicalised)" if canon else ""
     nbad = 0
     for api in apis:
-        if canon:
-            # model hashes with NaN canonicalisation are obtained per block lazily: compare through ranges
-            rc, out = lib.sh([binary, "f2h_blocks", "0", "65536", api, "1"], timeout=1800)
-            rc2, ref = lib.sh([canon, "f2h_blocks", "0", "65536", "c", "1"], timeout=1800) if isinstance(canon, str) else (0, "")
-            impl = out.split()
-            refb = ref.split()
-        else:
-            rc, out = lib.sh([binary, "f2h_blocks", "0", "65536", api, "0"], timeout=1800)
-            impl = out.split()
-            refb = model_blocks
-        ok = rc == 0 and len(impl) == 65536 and impl == refb
+        rc, out = lib.sh([binary, "f2h_blocks", "0", "65536", api, c], timeout=1800)
+        impl = out.split()
+        ok = rc == 0 and len(impl) == 65536 and len(model_blocks) == 65536 and impl == model_blocks
         chk.oblige("corr:%s:f2h:%s:all-2^32" % (name, api), "correspondence", ok)
         chk.count(1 << 32, (1 << 32) - 2)
         if not ok:
-            bad = [i for i in range(min(len(impl), 65536)) if impl[i] != refb[i]] if len(impl) == 65536 else []
+            bad = [i for i in range(65536) if impl[i] != model_blocks[i]] \
+                if len(impl) == 65536 and len(model_blocks) == 65536 else []
             nbad += len(bad) or 1
-            rep = {"config": name, "api": api, "mismatching_blocks": len(bad), "first_blocks": bad[:8]}
+            rep = {"config": name, "api": api, "nan_canonicalised": canon, "mismatching_blocks": len(bad),
+                   "first_blocks": bad[:8], "harness_rc": rc, "harness_lines": len(impl), "model_lines": len(model_blocks)}
             key = "%s:f2h:%s" % (prop_key_prefix, name)
             found = False
             if bad:
-                d = first_f2h_diff(binary, api, 1 if canon else 0, bad[0])
+                d = first_f2h_diff(binary, api, canon, bad[0])
                 if d:
                     u, x, y = d
                     sp = halfspec.spec_f2h(u)
@@ -72,28 +79,29 @@ def compare_config(chk, name, binary, prop_key_prefix, apis=("c", "cxx"), canon=
                         sp = halfspec.canon16(sp)
                     rep.update({"float_bits": "0x%08x" % u, "implementation": "0x%04x" % x,
                                 "model": "0x%04x" % y, "spec_rne16": "0x%04x" % sp,
-                                "replay_cmd": "%s f2h %x" % (os.path.relpath(binary, lib.VERIF), u)})
+                                "replay_cmd": "%s f2h_range %d %d %s %s" % (os.path.relpath(binary, lib.VERIF), u, u + 1, api, c)})
                     key = "%s:f2h:%s:0x%08x" % (prop_key_prefix, name, u)
                     found = True
             chk.fail("corr:%s:f2h:%s" % (name, api), key,
-                     "float->half differs from the proven model in configuration %s (%s api)" % (name, api), rep, found)
-        rc, out = lib.sh([binary, "h2f_all", api, "1" if canon else "0"], timeout=600)
+                     "float->half differs from the proven model in configuration %s (%s api)%s" % (name, api, tag), rep, found)
+        rc, out = lib.sh([binary, "h2f_all", api, c], timeout=600)
         impl = [int(x, 16) for x in out.split()]
-        ref = [halfspec.canon32(x) for x in model_h2f] if canon else model_h2f
-        ok = rc == 0 and impl == ref
+        ok = rc == 0 and len(impl) == 65536 and impl == model_h2f
         chk.oblige("corr:%s:h2f:%s:all-2^16" % (name, api), "correspondence", ok)
         chk.count(1 << 16, (1 << 16) - 2)
         if not ok:
             nbad += 1
-            d = [h for h in range(min(len(impl), 65536)) if impl[h] != ref[h]]
-            rep = {"config": name, "api": api, "mismatches": len(d)}
+            d = [h for h in range(min(len(impl), len(model_h2f), 65536)) if impl[h] != model_h2f[h]]
+            rep = {"config": name, "api": api, "nan_canonicalised": canon, "mismatches": len(d),
+                   "harness_rc": rc, "harness_lines": len(impl)}
             key = "%s:h2f:%s" % (prop_key_prefix, name)
             if d:
                 h = d[0]
-                rep.update({"half_bits": "0x%04x" % h, "implementation": "0x%08x" % impl[h], "model": "0x%08x" % ref[h],
-                            "spec_exact": "0x%08x" % halfspec.spec_h2f(h),
+                sp = halfspec.spec_h2f(h)
+                rep.update({"half_bits": "0x%04x" % h, "implementation": "0x%08x" % impl[h], "model": "0x%08x" % model_h2f[h],
+                            "spec_exact": "0x%08x" % (halfspec.canon32(sp) if canon else sp),
                             "replay_cmd": "%s h2f %x" % (os.path.relpath(binary, lib.VERIF), h)})
                 key += ":0x%04x" % h
             chk.fail("corr:%s:h2f:%s" % (name, api), key,
-                     "half->float differs from the proven model in configuration %s (%s api)" % (name, api), rep, bool(d))
+                     "half->float differs from the proven model in configuration %s (%s api)%s" % (name, api, tag), rep, bool(d))
     return nbad
